@@ -259,6 +259,33 @@ func init() {
 					if !spec.FromCty(back).Equal(ty) {
 						return facet.Failf("json-changed-model", "%s: %s came back model-different: %s", via, ty, spec.FromCty(back))
 					}
+					// The returned bytes belong to the caller, who may reuse the
+					// buffer: overwriting them must not change what the same type,
+					// its leaf types, or any other type serialize to afterwards.
+					want := string(b)
+					for i := range b {
+						b[i] = 'x'
+					}
+					for _, leaf := range []cty.Type{cty.String, cty.Number, cty.Bool, cty.DynamicPseudoType} {
+						if lb, lerr := leaf.MarshalJSON(); lerr == nil {
+							var lback cty.Type
+							if uerr := (&lback).UnmarshalJSON(lb); uerr != nil || !lback.Equals(leaf) {
+								return facet.Failf("json-shared-buffer", "after the bytes returned for %s were overwritten by their owner, %#v serializes to %q", ty, leaf, lb)
+							}
+							for i := range lb {
+								lb[i] = 'y'
+							}
+						}
+					}
+					var b2 []byte
+					if via == "method" {
+						b2, err = orig.MarshalJSON()
+					} else {
+						b2, err = ctyjson.MarshalType(orig)
+					}
+					if err != nil || string(b2) != want {
+						return facet.Failf("json-shared-buffer", "%s: %s serialized to %s, and to %s (%v) after the first result had been overwritten by its owner", via, ty, want, b2, err)
+					}
 				}
 			}
 			return nil
